@@ -109,6 +109,10 @@ def handle : DrvHandler := fun op args =>
         ("wake", wakeJson (.at (initialWake cfg spawn))),
         ("top", match firstStartN cfg (pviewOf obs) fuel spawn with
                 | .start top t => stateJson ((initState cfg spawn).entry top t) | _ => .null)]))
+  | "C10.exit", [.str how, .bool already] => do
+      -- how the task ended → may the timer be spawned again in this process
+      let e ← (match how with | "stopped" => some Exit.stopped | "returned" => some Exit.returned | "raised" => some Exit.raised | _ => none)
+      some (ok (.bool (respawnable (foreverAfter already e))))
   | "C10.reset", [lh, seen, e] => do
       let lh ← jOpt? jNat? lh
       let seen ← jOpt? jNat? seen
